@@ -133,6 +133,8 @@ func ruleImplies(have, want tagRule) bool {
 }
 
 func runC17(c *Ctx) {
+	c.Rule("O17.9", "no plugin is built from an undecoded configuration: every successful return of parseConf hands back the closure that runs config.DecodeAndValidate over the plugin's settings - also when only `type` is given, because the defaults themselves may violate the component's constraints (the rule of O18.6, shared)")
+	c.Borrow("C18", runC18, map[string]string{"O18.6": "O17.9"})
 	c.Rule("O17.1", "strict decoder: the mapstructure.DecoderConfig used for configuration has ErrorUnused=true, ZeroFields=false, WeaklyTypedInput=false, TagName=\"config\" and the compiled hook chain; DecodeAndValidate validates exactly when decoding succeeded and returns either error")
 	c.Rule("O17.2", "hook order: the variable-injection hook is the first element of DefaultHooks(); the plugin hooks are added after the composite-schedule hook")
 	c.Rule("O17.3", "nested plugin config is decoded strictly and validated: the fillConf closure of parseConf calls config.DecodeAndValidate(<map without the type key>, conf) on every path and returns its error; only the type key is deleted from the map; the registry calls fillConf on every creation (on an empty struct when the constructor takes no config) and fails creation on its error")
